@@ -385,6 +385,7 @@ def run(ctx):
     ctx.run("C10.ESCAPABLE", "R-SIBLING", escapable)
     ctx.run("C10.WORKER", "R-ERRDISC", worker)
     ctx.run("C10.LOCK-ORDER", "R-LOCK", lock_order)
+    ctx.run("C10.SUBMIT-NONBLOCKING", "R-LOCK", submit_nonblocking)
     # the joblib side of healing: a failed call must leave no state that disables the next abort / re-arming
     ctx.run("C04.RESET", "R-RESET", par.c04_reset)
     ctx.run("C04.CLEANUP", "R-ORDER", par.c04_cleanup)
@@ -392,6 +393,47 @@ def run(ctx):
 
 # ---------------------------------------------------------------------------
 # lock order (no deadlock between submit / resize / shutdown / manager thread)
+
+def submit_nonblocking(ctx):
+    """backend.submit() runs inside Parallel's dispatch lock (dispatch_one_batch -> _dispatch -> submit). The completion
+    callback of every batch needs that same lock, and so does the manager thread when it fails the futures of a broken
+    executor. submit() may therefore not wait for the executor or its workers (re-configuration, shutdown, termination,
+    joins): the thread it would wait for may be waiting for the lock submit() holds."""
+    BLOCKING = {"configure", "terminate", "abort_everything", "shutdown", "_terminate_and_reset", "join", "get_memmapping_executor",
+                "get_reusable_executor", "_get_pool", "wait", "result"}
+    allowed = {"_get_pool"}     # lazily creating the pool waits for nobody
+    n = 0
+    for q in ("PoolManagerMixin.submit", "LokyBackend.submit", "SequentialBackend.submit", "ThreadingBackend.submit", "MultiprocessingBackend.submit"):
+        if not ctx.repo.has_func(BK, q):
+            continue
+        fn = ctx.repo.func(BK, q)
+        n += 1
+        bad = []
+        seen = set()
+        def scan(f, depth):
+            if id(f) in seen or depth > 2:
+                return
+            seen.add(id(f))
+            for c in calls_in(f):
+                a = call_attr(c)
+                if a in BLOCKING and a not in allowed and not (isinstance(c.func, ast.Attribute) and isinstance(c.func.value, ast.Constant)):
+                    bad.append((c, f))
+                try:
+                    tgs = ctx.res.resolve_call(c, polymorphic=False)
+                except Exception:
+                    tgs = []
+                for t in tgs:
+                    if getattr(t, "_module", None) is not None and t._module.relpath == BK and t is not fn:
+                        scan(t, depth + 1)
+        scan(fn, 0)
+        for c, f in bad:
+            ctx.bad(c, "%s (reached from %s) waits for the executor while the dispatch lock is held: the completion callback / the manager thread failing the futures of a broken "
+                       "executor needs that lock, so a worker that dies while tasks are still being dispatched deadlocks the call" % (unparse(c, 70), q),
+                    key="%s::%s::blocking call %s under the dispatch lock" % (BK, q, call_attr(c)))
+        if not bad:
+            ctx.ok(fn, "%s hands the task over without waiting for the executor" % q)
+    ctx.floor(n, 2, "in-tree submit implementations")
+
 # ---------------------------------------------------------------------------
 
 LOCK_IDS = {
